@@ -3,7 +3,7 @@
    wip/arrays/a, arrays out of wip/); histories are ANY list of commands with kills after any
    prefix of steps. *)
 From Coq Require Import Arith List Bool.
-From B2Z Require Import Protocol.VczProtocol Protocol.VczRecovery.
+From B2Z Require Import Protocol.VczProtocol Protocol.VczRecovery Base.Eff Protocol.VczEffects Gen.GenVczProtocol Bridge.BridgeVczProtocol.
 Import ListNotations.
 
 Theorem never_falsely_finished : forall (nparts narrays : nat) (nent : nat -> nat -> nat) h,
@@ -73,3 +73,31 @@ Theorem rerun_recovers_instance :
   s PZmeta = Full /\ s (PArrE 0 0 0) = Full /\ s (PArrE 0 1 0) = Full /\ s (PArrE 0 2 0) = Full.
 Proof. split; [exact F7_fixed_refuses|exact F7_fixed_recovers]. Qed.
 Print Assumptions rerun_recovers_instance.
+
+(* TIE TO THE SOURCE.  Gen.GenProtocol.vcz_init / vcz_partition / vcz_finalise are the effect
+   sequences translator/proto2coq.py regenerates from VcfZarrWriter.init / encode_partition /
+   finalise (with finalise_array inlined as the body of the array loop) on every run.  In EVERY
+   state of the abstract file system what they denote -- guards and directory listings evaluated on
+   the state as the preceding effects left it -- is exactly the step list of the model the theorems
+   above are about.  The denotation also demands that a leftover wip_p<j> / stale_p<j> is removed
+   before mkdir / rename and that wip/ is removed before the metadata is consolidated. *)
+Theorem source_effects_are_model_steps : forall (nparts narrays : nat) (nent : nat -> nat -> nat) (j : nat) (rm : list (nat * nat)) s,
+  VczEffects.denote nparts narrays nent j vcz_init false false false s = Some (steps nparts narrays nent true s Init) /\
+  VczEffects.denote nparts narrays nent j vcz_partition false false false s = Some (steps nparts narrays nent true s (Partition j rm)) /\
+  VczEffects.denote nparts narrays nent j vcz_finalise false false false s = Some (steps nparts narrays nent true s Finalise).
+Proof.
+  intros nparts narrays nent j rm s.
+  exact (conj (vcz_init_denotes nparts narrays nent j s)
+        (conj (vcz_partition_denotes nparts narrays nent j rm s) (vcz_finalise_denotes nparts narrays nent j s))).
+Qed.
+Print Assumptions source_effects_are_model_steps.
+
+(* init writes the wip metadata -- the file whose presence the partition and finalise commands take
+   as "init completed" -- after everything else it creates (root group, fixed arrays, array templates) *)
+Theorem init_writes_metadata_last : last_mutation vcz_init = Some (WriteFile ZMeta) /\ In ZarrArrayTemplates vcz_init /\ In ZarrRootInit vcz_init.
+Proof. repeat split; vm_compute; auto 20. Qed.
+Print Assumptions init_writes_metadata_last.
+(* finalise consolidates last, after wip/ is gone *)
+Theorem finalise_consolidates_last : last_mutation vcz_finalise = Some Consolidate /\ consolidated_clean vcz_finalise false = true.
+Proof. split; reflexivity. Qed.
+Print Assumptions finalise_consolidates_last.
